@@ -133,6 +133,7 @@ func Gen(s *choice.Stream, o Options) *Tree {
 	escapes := feat("escaping", 1, 2)
 	missing := feat("missing", 1, 2)
 	invalid := feat("invalid-paths", 1, 6)
+	extAnywhere := feat("extends-anywhere", 1, 3)
 	// roles: files reached by import contain only declarations; decide a role
 	// per file: "page" (text+renders) or "lib" (macros only).
 	role := map[string]string{}
@@ -192,7 +193,10 @@ func Gen(s *choice.Stream, o Options) *Tree {
 	nmacro := 0
 	for idx, name := range t.Order {
 		var b strings.Builder
-		if idx == 0 && len(t.Order) > 1 && feat("extends", 1, 4) {
+		// The root may extend another file; with "extends-anywhere" so may any
+		// other file (rendering or importing such a file is an error the
+		// builder has to report).
+		if len(t.Order) > 1 && (idx == 0 && feat("extends", 1, 4) || idx > 0 && extAnywhere && s.Chance(1, 4)) {
 			target := pickTarget(name, idx)
 			if target != "" {
 				p, r := mkPath(name, target)
